@@ -6,7 +6,7 @@ ID = 'C03'
 HARNESSES = ['h_c01.cpp', 'h_load.cpp']
 LEVEL = 'model_checking'
 BUDGET = {'quick': 280, 'thorough': 3000}
-BOUNDS = {'quick': 'objects built through the API (C01 quick shapes/orders/extra parameters) and loaded-then-edited objects; parameter-section length steered through ALL 512 residues modulo the block size (520 consecutive lengths); payload symbolic (data floats free, so the byte following the parameter section is any value)',
+BOUNDS = {'quick': 'objects built through the API (C01 quick shapes/orders/extra parameters) and loaded-then-edited objects; parameter-section length steered through ALL 512 residues modulo the block size (520 consecutive lengths); plus objects whose parameter section fills 254 and 255 blocks (data start block 256/257); payload symbolic (data floats free, so the byte following the parameter section is any value)',
           'thorough': 'two full sweeps of the residues (1040 lengths, sections of 2-4 blocks); C01 thorough shapes'}
 OUTSIDE = 'histories deeper than load + 2 edits; parameter sections longer than 3 blocks'
 ASSUMPTIONS = ['the reference decoder oracle/c3dref.py follows only the file\'s own pointers (header byte 1, POINT:DATA_START, next-offsets)']
@@ -23,6 +23,9 @@ def jobs(tier, seed):
     # one save costs 0.2 s, so every residue is affordable on every change (520 consecutive lengths cover all 512 residues)
     for L in range(0, 520 if tier == 'quick' else 1040):
         out.append({'entry': 'h_save', 'harness': 'h_c01.cpp', 'cfg': c01.base(P=1, C=1, S=1, F=1, order=L % 3, pad=L), 'name': 'align', 'want_residue': True})
+    # parameter sections of 253..255 blocks (the data then start at block 255..257: the block numbers no longer fit one byte)
+    for v in ((492, 494) if tier == 'quick' else (488, 490, 492, 494)):
+        out.append({'entry': 'h_c17', 'harness': 'h_c01.cpp', 'cfg': {'kind': 9, 'value': v, 'obsfile': 1}, 'name': 'many-blocks'})
     return out
 
 def struct_obligations(cells, M, job, st, prefix):
@@ -86,6 +89,7 @@ def obligations(sec, job, st):
     return O
 
 def run_job(engine, job):
+    if job['name'] == 'many-blocks': return std_run(engine, job, obligations, 'c17.end', ID, job['name'], wall=280, maxsteps=400_000_000)
     return std_run(engine, job, obligations, 'save.end', ID, job['name'])
 
 def native_confirm(nat, v):
